@@ -251,13 +251,36 @@ func (p *Path) load(t types.Type, addr Value) Value {
 	panic(unsupported{fmt.Sprintf("load through %T", addr)})
 }
 
+// assignInPlace overwrites the cell *dst with v. Aggregates are overwritten
+// element by element so that pointers to their fields / elements taken
+// earlier stay valid (they denote the same memory in Go).
+func assignInPlace(dst *Value, v Value) {
+	switch nv := v.(type) {
+	case Struct:
+		if old, ok := (*dst).(Struct); ok && len(old) == len(nv) {
+			for i := range nv {
+				assignInPlace(&old[i], nv[i])
+			}
+			return
+		}
+	case Array:
+		if old, ok := (*dst).(Array); ok && len(old) == len(nv) {
+			for i := range nv {
+				assignInPlace(&old[i], nv[i])
+			}
+			return
+		}
+	}
+	*dst = copyVal(v)
+}
+
 func (p *Path) store(addr Value, v Value) {
 	switch a := addr.(type) {
 	case *Value:
 		if a == nil {
 			p.goPanicRuntime("invalid memory address or nil pointer dereference")
 		}
-		*a = copyVal(v)
+		assignInPlace(a, v)
 		return
 	case *SymElemPtr:
 		p.symElemStore(a, v)
